@@ -38,6 +38,7 @@ func runC05(p *Prog, r *Report) {
 	typeStringOpaqueRule(p, r, "C05.R12")
 	fieldSettingTargetRule(p, r, "C05.R13")
 	lookupContextRule(p, r, "C05.R14")
+	fieldsAccessorRule(p, r, "C05.R15")
 	armStoresRule(p, r, "C05.R7", "config.parseMethodLine", "map", "ignore", "autoMap")
 }
 
